@@ -12,6 +12,8 @@ Contract clauses evaluated (on the REAL `tsdate.prior.ConditionalCoalescentTimes
                                    (exp(beta)-1)*exp(2*alpha+beta) == var, and (alpha, beta) equal the
                                    transform of the EXACT moments
   rows-agree-between-distributions the mean/var columns are the same whichever prior_distr is chosen
+  default-add-is-exact-whatever-was-added-before   on an object that owns a lookup table, a default add(n) for small n
+                                   gives the exact moments also after an approximate / explicit earlier add
 
 Specification oracle (written from the statement, shares no code with tsdate).  Under Kingman's
 coalescent with n tips (pair coalescence rate 1, i.e. T_j ~ Exp(j(j-1)/2) while j lineages remain) the
@@ -251,6 +253,42 @@ def run(req, rep):
             check_n(rep, cct, n, range(2, n + 1), stats)
         for n in ladder:
             check_n(rep, cct, n, ladder_ks(n, rng), stats)
+    # history independence of the default (exact for small n) path: one object that owns a lookup table, an
+    # approximate add first, then default adds -- the rows must still be the exact moments (second C14 seed)
+    import os
+    import tempfile
+    old_xdg = os.environ.get("XDG_CACHE_HOME")
+    with tempfile.TemporaryDirectory(prefix="c14cache") as td:
+        os.environ["XDG_CACHE_HOME"] = td
+        try:
+            from tsdate.prior import PriorParams
+            im, iv = PriorParams.field_index("mean"), PriorParams.field_index("var")
+            for distr in ("gamma", "lognorm"):
+                for first in ((40, True), (12, False), None):
+                    import logging
+                    logging.disable(logging.WARNING)
+                    try:
+                        obj = prior.ConditionalCoalescentTimes(60, distr)
+                    finally:
+                        logging.disable(logging.NOTSET)
+                    if first is not None:
+                        obj.add(first[0], approximate=first[1])
+                    for n2 in (5, 9, 25):
+                        obj.add(n2)  # default: exact, since n2 < DEFAULT_APPROX_PRIOR_SIZE
+                        ex = KingmanExact(n2)
+                        for k in range(2, n2 + 1):
+                            mean_q, var_q = ex.moments(k)
+                            row = obj[n2][k]
+                            rep.case("default-add-is-exact-whatever-was-added-before",
+                                     close(row[im], float(mean_q), RTOL) and close(row[iv], float(var_q), RTOL),
+                                     key=f"{distr}/first{first}/n{n2}k{k}",
+                                     input={"prior_distr": distr, "precalc_approximation_n": 60, "first_add": first, "then_default_add": n2, "k": k},
+                                     observed=[float(row[im]), float(row[iv])], expected=[float(mean_q), float(var_q)])
+        finally:
+            if old_xdg is None:
+                os.environ.pop("XDG_CACHE_HOME", None)
+            else:
+                os.environ["XDG_CACHE_HOME"] = old_xdg
     rep.notes.append(f"max relative deviation from the exact moments: mean {stats['mean']:.2e}, "
                      f"var {stats['var']:.2e}")
 
